@@ -215,4 +215,4 @@ PROPS = {
 NOT_APPLICABLE = {}
 
 # properties configured above but not yet registered in MANIFEST.json (work in progress)
-HOLD = {"C06", "C14"}
+HOLD = set()
